@@ -92,11 +92,25 @@ Fixpoint name_eqb (a b : name) : bool :=
   | x :: a', y :: b' => (x =? y) && name_eqb a' b'
   | _, _ => false
   end.
+(* the condition set (std::unordered_set in the library) is kept as a strictly sorted list of names, so
+   that equal sets are equal values *)
+Fixpoint name_ltb (a b : name) : bool :=
+  match a, b with
+  | [], [] => false
+  | [], _ :: _ => true
+  | _ :: _, [] => false
+  | x :: a', y :: b' => (x <? y) || ((x =? y) && name_ltb a' b')
+  end.
 Definition has_cond (c : list name) (nm : name) : bool := existsb (name_eqb nm) c.
 Definition remove_cond (c : list name) (nm : name) : list name := filter (fun x => negb (name_eqb nm x)) c.
-(* environment::set_condition: returns the previous value *)
+Fixpoint insert_cond (c : list name) (nm : name) : list name :=
+  match c with
+  | [] => [nm]
+  | x :: r => if name_eqb nm x then c else if name_ltb nm x then nm :: c else x :: insert_cond r nm
+  end.
+(* environment::set_condition *)
 Definition set_cond (c : list name) (nm : name) (v : bool) : list name :=
-  if v then (if has_cond c nm then c else nm :: c) else remove_cond c nm.
+  if v then insert_cond c nm else remove_cond c nm.
 
 Fixpoint get_symbols (t : symtab) (nm : name) : list (list N) :=
   match t with [] => [] | (k, v) :: r => if name_eqb k nm then v else get_symbols r nm end.
@@ -737,3 +751,29 @@ Definition init_state (input : list N) (chunks : list (list N)) (inter : bool) (
      eh := None; rh := None; rr := RESUME; frames := []; resp := []; buf := input; pending := chunks;
      alive := match chunks with [] => false | _ => true end; interactive := inter; conds := conds0; syms := syms0;
      foldcache := []; success := true; fmode := 0; log := [] |}.
+
+Definition init_state_with (input : list N) (chunks : list (list N)) (alive0 inter : bool) (conds0 : list name) (syms0 : symtab) : mstate :=
+  {| pc := 0; sr := 0; mr := 0; rc := 0; cd := 0; cic := 0; cutf := false; accf := false; rid := 0; rinh := false;
+     eh := None; rh := None; rr := RESUME; frames := []; resp := []; buf := input; pending := chunks;
+     alive := alive0; interactive := inter; conds := conds0; syms := syms0;
+     foldcache := []; success := true; fmode := 0; log := [] |}.
+
+(* ------------------------------------------------------------------ reuse: what parse() does before the first instruction *)
+(* basic_parser::reset(): release the consumed prefix of the buffer, then do_reset: every register, the
+   frame stack, the responses and the fold cache are overwritten; the input source (unread bytes, pending
+   chunks), the conditions and the symbol table are what the previous parse -- however it ended -- left.
+   [fmode] and [log] are artefacts of the model (failure as a mode, observation log) and start afresh. *)
+Definition reset_state (prev : mstate) : mstate :=
+  let s0 := if 0 <? sr prev then upd_src (skipnN (sr prev) (buf prev)) (pending prev) (alive prev) prev else prev in
+  let s1 := upd_success true s0 in
+  let s2 := upd_sr 0 (upd_mr 0 (upd_rc 0 (upd_cd 0 (upd_ci 0 false false (upd_ri 0 false s1))))) in
+  let s3 := upd_pc 0 (upd_eh None (upd_rh None (upd_rr RESUME s2))) in
+  let s4 := upd_frames [] (upd_resp [] (upd_cache [] s3)) in
+  {| pc := pc s4; sr := sr s4; mr := mr s4; rc := rc s4; cd := cd s4; cic := cic s4; cutf := cutf s4; accf := accf s4;
+     rid := rid s4; rinh := rinh s4; eh := eh s4; rh := rh s4; rr := rr s4; frames := frames s4; resp := resp s4;
+     buf := buf s4; pending := pending s4; alive := alive s4; interactive := interactive s4; conds := conds s4; syms := syms s4;
+     foldcache := foldcache s4; success := success s4; fmode := 0; log := [] |}.
+
+(* enqueue(first, last) on a string source appends to the buffer (string_view sources drain first: the
+   harness models that by enqueueing after reset) *)
+Definition enqueue (bytes : list N) (s : mstate) : mstate := upd_src (buf s ++ bytes) (pending s) (alive s) s.
